@@ -40,7 +40,12 @@ fn gen_searcher(rng: &mut Rng, pal: &[u8], many_ok: bool) -> SearcherSpec {
 }
 
 fn gen_search(rng: &mut Rng, sc: &ThreadScenario, pal: &[u8], s: usize, fixed_only: bool) -> Search {
-    let hay = if fixed_only || rng.chance(2, 5) {
+    let nh = sc.fixed_hays.len();
+    let sparse_pair = nh >= 2 && sc.fixed_hays[nh - 1].len() >= 6_000 && sc.fixed_hays[nh - 1].len() == sc.fixed_hays[nh - 2].len();
+    let hay = if !fixed_only && sparse_pair && rng.chance(1, 3) {
+        // the sparse pair, copied into the same reusable buffer (same address, same length)
+        Hay::Buf { slot: 0, fill: sc.fixed_hays[nh - 1 - rng.below(2)].clone() }
+    } else if fixed_only || rng.chance(2, 5) {
         Hay::Fixed(rng.below(sc.fixed_hays.len()))
     } else {
         // a buffer that is overwritten in place: same address, often same length
@@ -463,6 +468,25 @@ pub fn gen_thread(class: &str, seed: u64, idx: u64) -> ThreadScenario {
         let widepal: Vec<u8> = pal.iter().cloned().chain(b"xyz ".iter().cloned()).collect();
         let h = gen_stream(r, &widepal, &pats, target, spec.opts.case_insensitive, &mut planted);
         sc.fixed_hays.push(h);
+        // a sparse pair of equal length: kilobytes of filler that occurs in no pattern
+        // (long skips inside prefilters), one occurrence late in the first haystack and
+        // early in the second; through a reused buffer they share one address
+        let filler = *b"._- #".iter().find(|b| !pats.iter().any(|p| p.contains(b))).unwrap_or(&b'.');
+        let len = r.range(6_000, 40_000);
+        let p = r.pick(&pats).clone();
+        let mut a = vec![filler; len];
+        let mut b = vec![filler; len];
+        if p.len() < len {
+            let late = len - p.len() - r.below(200.min(len - p.len()));
+            let early = r.below(200.min(len - p.len()));
+            a[late..late + p.len()].copy_from_slice(&p);
+            b[early..early + p.len()].copy_from_slice(&p);
+            if r.chance(1, 2) {
+                b[late..late + p.len()].copy_from_slice(&p);
+            }
+        }
+        sc.fixed_hays.push(a);
+        sc.fixed_hays.push(b);
     }
     if long_patterns {
         let pats: Vec<Vec<u8>> = sc.searchers[0].patterns.clone();
